@@ -31,10 +31,11 @@ pub fn gen(rng: &mut Rng, tier: Tier, out: &mut Vec<String>) {
         // distant geometry: w in [1e2, 1e8] with a ratio up to 1.5 across the triangle, so that the
         // per-pixel step of 1/w is below f32::EPSILON while 1/w still changes by tens of percent
         let distant = rng.chance(1, 6);
+        let dratio = if rng.bool() { 1.5 } else { 8.0 };
         let w0 = if distant { 10f32.powf(rng.f32_in(2.0, 8.0)) } else { rng.f32_in(1.0, 10.0) };
         let mut line = format!("frags {kind}");
         for q in p {
-            let w = if flat { w0 } else if distant { w0 * rng.f32_in(1.0, 1.5) } else if rng.chance(1, 4) { *rng.pick(&[1.0f32, 2.0, 4.0, 8.0]) } else { rng.f32_in(1.0, 10.0) };
+            let w = if flat { w0 } else if distant { w0 * rng.f32_in(1.0, dratio) } else if rng.chance(1, 4) { *rng.pick(&[1.0f32, 2.0, 4.0, 8.0]) } else { rng.f32_in(1.0, 10.0) };
             let z = 1.0 / w;
             line += &format!(" {} {} {}", h32(q.0), h32(q.1), h32(z));
             for _ in 0..k {
